@@ -31,6 +31,8 @@
 #ifndef REALBPP
 #define REALBPP BPP
 #endif
+/* bytes of a CPIXEL: 2 for the 15-bit instance (REALBPP / 8 would give 1) */
+#define CPIXEL_BYTES ((REALBPP + 7) / 8)
 
 #if !defined(UNCOMP) || UNCOMP==0
 #define HandleZRLE CONCAT2E(HandleZRLE,REALBPP)
@@ -87,7 +89,7 @@ HandleZRLE (rfbClient* client, int rx, int ry, int rw, int rh)
 	int remaining;
 	int inflateResult;
 	int toRead;
-	int min_buffer_size = rw * rh * (REALBPP / 8) * 2;
+	int min_buffer_size = rw * rh * (CPIXEL_BYTES) * 2;
 
 	/* First make sure we have a large enough raw buffer to hold the
 	 * decompressed data.  In practice, with a fixed REALBPP, fixed frame
@@ -269,34 +271,34 @@ static int HandleZRLETile(rfbClient* client,
 #if REALBPP!=BPP
 			int i,j;
 
-			if(1+w*h*REALBPP/8>buffer_length) {
-				rfbClientLog("expected %d bytes, got only %d (%dx%d)\n",1+w*h*REALBPP/8,buffer_length,w,h);
+			if(1+w*h*CPIXEL_BYTES>buffer_length) {
+				rfbClientLog("expected %d bytes, got only %d (%dx%d)\n",1+w*h*CPIXEL_BYTES,buffer_length,w,h);
 				return -3;
 			}
 
 			for(j=y*client->width; j<(y+h)*client->width; j+=client->width)
-				for(i=x; i<x+w; i++,buffer+=REALBPP/8)
+				for(i=x; i<x+w; i++,buffer+=CPIXEL_BYTES)
 					((CARDBPP*)client->frameBuffer)[j+i] = UncompressCPixel(buffer);
 #else
-			if(1+w*h*REALBPP/8>buffer_length) {
-				rfbClientLog("expected %d bytes, got only %d (%dx%d)\n",1+w*h*REALBPP/8,buffer_length,w,h);
+			if(1+w*h*CPIXEL_BYTES>buffer_length) {
+				rfbClientLog("expected %d bytes, got only %d (%dx%d)\n",1+w*h*CPIXEL_BYTES,buffer_length,w,h);
 				return -3;
 			}
 			client->GotBitmap(client, buffer, x, y, w, h);
-			buffer+=w*h*REALBPP/8;
+			buffer+=w*h*CPIXEL_BYTES;
 #endif
 		}
 		else if( type == 1 ) /* solid */
 		{
 			CARDBPP color;
 
-			if(1+REALBPP/8>buffer_length)
+			if(1+CPIXEL_BYTES>buffer_length)
 				return -4;
 			color = UncompressCPixel(buffer);
 
 			client->GotFillRect(client, x, y, w, h, color);
 
-			buffer+=REALBPP/8;
+			buffer+=CPIXEL_BYTES;
 
 		}
 		else if( type <= 127 ) /* packed Palette */
@@ -310,11 +312,11 @@ static int HandleZRLETile(rfbClient* client,
 			/* types 17..127 are unused by the protocol; their 8-bit indices would exceed palette[128] */
 			if(type>16)
 				return -6;
-			if(1+type*REALBPP/8+((w+divider-1)/divider)*h>buffer_length)
+			if(1+type*CPIXEL_BYTES+((w+divider-1)/divider)*h>buffer_length)
 				return -5;
 
 			/* read palette */
-			for(i=0; i<type; i++,buffer+=REALBPP/8)
+			for(i=0; i<type; i++,buffer+=CPIXEL_BYTES)
 				palette[i] = UncompressCPixel(buffer);
 
 			/* read palettized pixels */
@@ -339,10 +341,10 @@ static int HandleZRLETile(rfbClient* client,
 			while(j<h) {
 				int color,length;
 				/* read color */
-				if(buffer+REALBPP/8+1>buffer_end)
+				if(buffer+CPIXEL_BYTES+1>buffer_end)
 					return -7;
 				color = UncompressCPixel(buffer);
-				buffer+=REALBPP/8;
+				buffer+=CPIXEL_BYTES;
 				/* read run length */
 				length=1;
 				while(*buffer==0xff) {
@@ -376,11 +378,11 @@ static int HandleZRLETile(rfbClient* client,
 			CARDBPP palette[128];
 			int i,j;
 
-			if(2+(type-128)*REALBPP/8>buffer_length)
+			if(2+(type-128)*CPIXEL_BYTES>buffer_length)
 				return -9;
 
 			/* read palette */
-			for(i=0; i<type-128; i++,buffer+=REALBPP/8)
+			for(i=0; i<type-128; i++,buffer+=CPIXEL_BYTES)
 				palette[i] = UncompressCPixel(buffer);
 			/* read palettized pixels */
 			i=j=0;
@@ -431,5 +433,6 @@ static int HandleZRLETile(rfbClient* client,
 
 #endif
 
+#undef CPIXEL_BYTES
 #undef UNCOMP
 #undef REALBPP
